@@ -1,4 +1,5 @@
 import SuitVerif.Mpi
+import SuitVerif.IHexText
 /-! # C12 — MPI records and merged MPI areas have the exact device layout -/
 namespace SuitVerif.Props.C12
 open SuitVerif SuitVerif.Mpi SuitVerif.IHex
@@ -117,5 +118,15 @@ theorem C12_merge_checks (sha256 : Bytes → Bytes) (address size : Nat) (inputs
   subst this
   subst himg
   simp [checkMerge]
+
+/-- **file level**: the text of the hex file `mpi generate` writes (writer model `IHex.writeText` of the third-party `intelhex` writer) reads back,
+with the strict reader, as exactly the record at the given address - for every address, reserved size and name with the record ending below 2^32 -/
+theorem C12_record_file (sha1 : Bytes → Bytes) (vendor cls : Bytes) (address size : Nat) (dp iu : Bool)
+    (sv : SigPolicy) (img : Image) (h : generate sha1 vendor cls address size dp iu sv = .ok img) :
+    ∃ rec, img = [(address, rec)] ∧ rec ≠ [] ∧ (address + rec.length ≤ 2 ^ 32 → IHex.read (IHex.writeText address rec) = some img) := by
+  obtain ⟨svb, _, himg⟩ := C12_record sha1 vendor cls address size dp iu sv img h
+  refine ⟨_, himg, by simp, fun hb => ?_⟩
+  rw [IHex.read_writeText address _ hb, himg]
+  simp
 
 end SuitVerif.Props.C12
